@@ -295,7 +295,8 @@ def main(tier, base_seed):
         total_runs += nruns
         cov["per_flavour"][flavour] = {"runs": nruns, "wall_s": round(time.time() - tf, 1), "runs_dispatched": main_b.agg.get("runs_dispatched", 0),
                                        "distinct_schedules": len(main_b.sched), "task_types": len(main_b.tasks), "worker_deaths": main_b.deaths,
-                                       "violating_runs": len(main_b.viol), "determinism_gate_runs": len(g.run_hash)}
+                                       "violating_runs": len(main_b.viol), "determinism_gate_runs": len(g.run_hash),
+                                       "dispatch_threshold_measured": sorted(main_b.extra.get("dispatch_threshold", []))}
 
     wall = time.time() - t0
     exe, env, bd = pyfleet.prepare(list(plan_runs)[0])
